@@ -276,6 +276,11 @@ func c10Scenarios() []C10Scn {
 	add(C10Scn{Name: "z-xz-f-symlink", Args: []string{"-f", "link"}, Files: []c10File{f("data", "plain:small"), f("link", "symlink:data")}, Input: "link", DataFile: "data", Target: "link.xz", Format: "xz", Plain: "small", InputOK: true, ExpectOK: true, EitherExit: true})
 	add(C10Scn{Name: "z-xz-f-symlink-to-target-name", Args: []string{"-f", "report"}, Files: []c10File{f("report.xz", "xz:small"), f("report", "symlink:report.xz")}, Input: "report", DataFile: "report.xz", Target: "report.xz", Format: "xz", Plain: "xzsmall", InputOK: true, ExpectOK: true, EitherExit: true})
 	add(C10Scn{Name: "d-xz-f-symlink", Args: []string{"-d", "-f", "link.xz"}, Files: []c10File{f("data.xz", "xz:small"), f("link.xz", "symlink:data.xz")}, Input: "link.xz", DataFile: "data.xz", Target: "link", Decompress: true, Format: "xz", Plain: "small", InputOK: true, ExpectOK: true, EitherExit: true})
+	// operands whose output name is "-" (the name that elsewhere stands for the standard streams) or begins with a dash
+	add(C10Scn{Name: "d-xz-dash-target", Args: []string{"-d", "--", "-.xz"}, Files: []c10File{f("-.xz", "xz:small")}, Input: "-.xz", Target: "-", Decompress: true, Format: "xz", Plain: "small", InputOK: true, ExpectOK: true})
+	add(C10Scn{Name: "d-lzma-dash-target-k", Args: []string{"-dk", "--", "-.lzma"}, Files: []c10File{f("-.lzma", "lzma:small")}, Input: "-.lzma", Target: "-", Decompress: true, Format: "lzma", Keep: true, Plain: "small", InputOK: true, ExpectOK: true})
+	add(C10Scn{Name: "d-xz-dash-target-truncated", Args: []string{"-d", "--", "-.xz"}, Files: []c10File{f("-.xz", "xz-trunc:big")}, Input: "-.xz", Target: "-", Decompress: true, Format: "xz", Plain: "big", InputOK: false, ExpectOK: false})
+	add(C10Scn{Name: "z-xz-dash-name", Args: []string{"--", "-n"}, Files: []c10File{f("-n", "plain:small")}, Input: "-n", Target: "-n.xz", Format: "xz", Plain: "small", InputOK: true, ExpectOK: true})
 	add(C10Scn{Name: "d-bare-suffix", Args: []string{"-d", ".xz"}, Files: []c10File{f(".xz", "xz:small")}, Input: ".xz", Decompress: true, Format: "xz", Plain: "small", InputOK: false, ExpectOK: false})
 	return out
 }
